@@ -160,12 +160,8 @@ def main():
                 st['recursion_skipped'] += 1; continue
             if mlines is not None:
                 ml = mlines[k]
-                if hasattr(dom, 'compare'):
-                    same = dom.compare(c, line, ml)
-                elif isinstance(c.get('s'), str) and vlib.unmodelled_text(c['s']):
-                    same = None
-                else:
-                    same = (line == ml)
+                same = vlib.compare_alternatives(dom, c, line, ml)
+                if ' ~~ ' in ml: st['tied_fuzzy_scores'] = st.get('tied_fuzzy_scores', 0) + 1
                 if same is None:
                     st['unmodelled'] += 1
                 elif not same:
